@@ -16,7 +16,7 @@ and failing when the computed polynomial, a sign test or the control flow differ
   the square-root routine `sr`, conditions), and the outermost `sr _ _` call / parse / `if` is case-split for both
   sides at once, until both sides are syntactically equal.
 -/
-import Decaf.Lemmas.Bridge
+import Decaf.Lemmas.ModelCurve
 import Decaf.Generated.Formulas
 import Mathlib.Tactic.Ring.RingNF
 import Mathlib.Tactic.SplitIfs
@@ -25,7 +25,6 @@ namespace Formulas
 open Model
 
 section
-local instance : NeZero q := ⟨Nat.pos_iff_ne_zero.mp q_pos⟩
 
 theorem fmul_val (a b : ℕ) : fmul q a b = ZMod.val ((a : ZMod q) * (b : ZMod q)) := by
   rw [← cast_fmul, val_cast_of_lt (fmul_lt q_pos _ _)]
@@ -49,6 +48,11 @@ theorem ark_D : fqLit Gen.ark_curve_edwards.TECurveConfig_Decaf377EdwardsConfig.
 theorem ark_Z : fqLit Gen.ark_curve_constants.top.ZETA = ZETA := rfl
 theorem ark_one : fqLit Gen.ark_curve_constants.top.ONE = 1 := by decide +kernel
 
+/-- the numeric values of the curve coefficients, so that a formula specialised to a = -1, d = 3021 is recognised too -/
+theorem cast_cA' : ((cA : ℕ) : ZMod q) = -1 := cast_cA
+theorem cast_cD' : ((cD : ℕ) : ZMod q) = 3021 := by rw [cD_eq]; norm_num
+theorem cast_cK' : ((cK : ℕ) : ZMod q) = 6042 := by rw [cK_eq]; norm_num
+
 /-- one step: close by syntactic equality, or split the outermost square-root call / parse / conditional -/
 macro "formula_step" sr:ident : tactic => `(tactic| first
   | with_reducible rfl
@@ -62,7 +66,7 @@ macro "formula_step" sr:ident : tactic => `(tactic| first
 macro "formula_eq" sr:ident : tactic => `(tactic| (
   try simp only [min_A, min_D, min_Z, ark_A, ark_D, ark_Z, ark_one, min_K]
   try simp only [fmul_val, fadd_val, fsub_val, fneg_val, fsq_val, ZMod.natCast_zmod_val, Nat.cast_ofNat, Nat.cast_one,
-    Nat.reducePow, beq_true, beq_false, Bool.not_eq_true', Bool.not_eq_false', beq_iff_eq, bne_iff_ne, ne_eq,
+    cast_cA', cast_cD', cast_cK', Nat.reducePow, beq_true, beq_false, Bool.not_eq_true', Bool.not_eq_false', beq_iff_eq, bne_iff_ne, ne_eq,
     Bool.not_eq_true, Bool.not_eq_false, Bool.not_not]
   repeat' (first
     | with_reducible rfl
